@@ -31,6 +31,23 @@ def run(ctx):
                    'send %s' % ('is dominated by the buffer push' if ok else 'happens BEFORE the frame is pushed into the history buffer: a subscriber that subscribes and snapshots between the two never receives this frame'), line=s.line)
     ctx.floor('C06.1', 'buffer emitters', n, 2)
 
+    # ---------------------------------------------------------------- C06.4
+    ctx.rule('C06.4', 'publish in seq order: every broadcast of a thread frame in ContinuityStore happens inside the live range of the next_seq guard that numbered it (a frame published after the guard was released can be overtaken by a later seq, and a live subscriber sees them out of order).')
+    from .c01 import SEQ_GUARD, STORE
+    nsend = 0
+    for p, f in sorted(P.fns.items()):
+        if not p.startswith(STORE):
+            continue
+        for s in f.calls(SEND, full=r'Sender::<rip_kernel::Event>::send'):
+            nsend += 1
+            held = f.held_at(s.bb, SEQ_GUARD)
+            if not held:
+                # a private helper that publishes on behalf of a caller holding the guard
+                lifted = P.lift_sites([s], lambda g: bool(g.guard_ranges(SEQ_GUARD)), depth=2)
+                held = all(x.fn.held_at(x.bb, SEQ_GUARD) for x in lifted) and lifted and lifted[0] is not s
+            ctx.ob('C06.4', f, 'publish-under-seq-guard', bool(held), 'broadcast send %s the next_seq guard' % ('inside the live range of' if held else 'OUTSIDE'), line=s.line)
+    ctx.floor('C06.4', 'broadcast sends in ContinuityStore', nsend, 13)
+
     # ---------------------------------------------------------------- C06.2 / C06.3
     handlers = []
     # a "subscribe, snapshot, chain" preparation extracted into a private helper of server.rs is spliced into the
@@ -50,14 +67,18 @@ def run(ctx):
             continue
         subs = f.calls(r'::subscribe$')
         snaps = f.calls(r'::events_snapshot$|ContinuityStore::replay_events$')
-        if subs and snaps:
+        # a stream handler is recognised by what it serves (an SSE response built from a history snapshot), not by
+        # the subscribe call the rule is about: a subscribe moved into a lazily polled stream / closure leaves
+        # `subs` empty here and must fail the rule, not drop the handler from the list
+        serves = f.calls(r'axum::response::sse::Sse::<S>::new$|sse::Sse::new$')
+        if snaps and (subs or serves):
             handlers.append((f, subs, snaps))
     ctx.floor('C06.2', 'stream handlers', len(handlers), 3)
     for f, subs, snaps in handlers:
         for sn in snaps:
             ok = any(f.dom(su.bb, sn.bb) and su.bb != sn.bb for su in subs)
             ctx.ob('C06.2', f, 'subscribe-before-snapshot', ok,
-                   '%s %s' % (sn.name, 'is dominated by subscribe' if ok else 'can run BEFORE subscribe: frames emitted in between are lost'), line=sn.line)
+                   '%s %s' % (sn.name, 'is dominated by subscribe' if ok else ('can run BEFORE subscribe: frames emitted in between are lost' if subs else 'runs and NO subscribe precedes it in the handler body (the live receiver is opened later, inside a lazily polled stream): frames emitted in between reach the client from neither history nor live')), line=sn.line)
         # C06.3: chain order
         chains = f.calls(r'StreamExt::chain$|::chain$')
         if not chains:
